@@ -49,14 +49,14 @@ static void __attribute__((noinline)) paint_stack(int pat) { volatile unsigned c
 static unsigned long long rawsum(void) { unsigned long long h = 1469598103934665603ULL; for (size_t i = 0; i < memsz; i++) { h ^= mem[i]; h *= 1099511628211ULL; } return h; }
 
 int main(void) {
-    qv_install(); int dead = 0;
+    qv_install(); int dead = 0, refused = 0;
     int paint = getenv("QV_PAINT") ? atoi(getenv("QV_PAINT")) : -1;
     attach_new(2);
     while (fgets(line, sizeof line, stdin)) {
         if (line[0] == '#' || line[0] == '\n') continue;
         char op[32]; a1[0] = a2[0] = a3[0] = 0;
         sscanf(line, "%31s %s %s %63s", op, a1, a2, a3);
-        if (!strcmp(op, "cap")) { attach_new(atoi(a1)); for (int i = 0; i < MAXK; i++) { free(keys[i]); keys[i] = NULL; } dead = 0; continue; }
+        if (!strcmp(op, "cap")) { attach_new(atoi(a1)); for (int i = 0; i < MAXK; i++) { free(keys[i]); keys[i] = NULL; } dead = 0; refused = 0; continue; }
         if (!strcmp(op, "key")) { int i = atoi(a1); free(keys[i]); keys[i] = malloc(1 << 17); keylen[i] = unhex(a2, keys[i]);
             qhashmd5(keys[i], keylen[i], keymd5[i]); continue; }
         if (!strcmp(op, "reloc")) {
@@ -69,6 +69,7 @@ int main(void) {
             memset(mem, 0xDD, memsz);
             qhasharr_free(t); guard_free(region);
             region = nr; mem = nm; t = qhasharr(mem, 0);
+            if (!t) refused = 1;       /* a second handle on a valid image must attach: every later op reports it */
             continue;
         }
         if (!strcmp(op, "tiny")) {          /* constructor on a region of n bytes ending at an inaccessible page */
@@ -79,6 +80,7 @@ int main(void) {
             guard_free(g); fflush(stdout); continue;
         }
         if (!strcmp(op, "raw")) { printf("raw %016llx\n", rawsum()); fflush(stdout); continue; }
+        if (refused) { printf("ATTACH-REFUSED\n"); fflush(stdout); continue; }
         if (dead) { printf("DEAD\n"); continue; }
         if (paint >= 0) paint_stack(paint);
         if (QV_TRY(10)) {
@@ -90,10 +92,17 @@ int main(void) {
                 memset(kk, 0x5A, keylen[k]); free(kk); memset(vv, 0x5A, nv); free(vv);
                 printf("%s", r ? "true" : "false");
             } else if (!strcmp(op, "get")) {
-                int k = atoi(a1); size_t ds = 0; void *d = qhasharr_get_by_obj(t, keys[k], keylen[k], &ds);
+                /* the key is presented from buffers of varying alignment (put: malloc'd copy; get/del: offset 0..3 in turn):
+                   the table is a function of the key bytes, not of where the caller keeps them */
+                static unsigned opno; int k = atoi(a1); size_t ds = 0;
+                unsigned char *kb = malloc(keylen[k] + 8), *kk = kb + (++opno & 3); memcpy(kk, keys[k], keylen[k]);
+                void *d = qhasharr_get_by_obj(t, kk, keylen[k], &ds); free(kb);
                 if (d) { puthex(stdout, d, ds); free(d); } else printf("none");
             } else if (!strcmp(op, "del")) {
-                int k = atoi(a1); printf("%s", qhasharr_remove_by_obj(t, (char *)keys[k], keylen[k]) ? "true" : "false");
+                static unsigned opno2; int k = atoi(a1);
+                unsigned char *kb = malloc(keylen[k] + 8), *kk = kb + (++opno2 & 3); memcpy(kk, keys[k], keylen[k]);
+                bool r = qhasharr_remove_by_obj(t, (char *)kk, keylen[k]); free(kb);
+                printf("%s", r ? "true" : "false");
             } else if (!strcmp(op, "delidx")) {
                 int i = atoi(a1); printf("%s", (i < cap && qhasharr_remove_by_idx(t, i)) ? "true" : "false");
             } else if (!strcmp(op, "clear")) { qhasharr_clear(t); printf("ok");
